@@ -32,8 +32,11 @@ def gen_dense(rng, big=False):
             ops.append("C,%s,%s" % (".".join(str(rng.below(c)) for _ in range(c)), junk(r, c)))
         elif k < 84:
             ops.append("x,%d,%d" % (rng.below(r), rng.below(r)))
-        elif k < 90:
+        elif k < 87:
             ops.append("w,%d" % i)
+        elif k < 90:
+            # weight ignoring the words before nb/32; a row index one past the end now and then (answers UINT32(-1))
+            ops.append("I,%d,%d" % (i if rng.chance(7, 8) else r, min(c, rng.choice([0, 1, 31, 32, 33, 64, rng.below(c + 1)]))))
         elif k < 95:
             ops.append("W,%d" % j)
         else:
@@ -85,6 +88,9 @@ def dense_oracle(req, ans):
             M[t] = [x ^ y for x, y in zip(M[t], M[f])]
         elif a[0] == "w":
             want = sum(M[int(a[1])])
+        elif a[0] == "I":
+            # the bits from the word boundary at or below nb on (the function skips whole 32-bit words only)
+            want = 9999 if int(a[1]) >= r else sum(M[int(a[1])][32 * (int(a[2]) // 32):])
         elif a[0] == "W":
             want = sum(M[i][int(a[1])] for i in range(r))
         elif a[0] == "e":
@@ -184,7 +190,15 @@ def run(c):
     words = [0, 1, 2, 3, 0xF0, 0xFF, 0x100, 0x8000, 0x10000, 0x7FFFFFFF, 0x80000000, 0xFFFFFFFF, 0x55555555, 0xAAAAAAAA, 0x0F0F0F0F, 0x12345678]
     words += [c.rng.below(2 ** 32) for _ in range(3000)] + [1 << b for b in range(32)] + [(1 << b) - 1 for b in range(33)]
     hreq = ["H " + " ".join(map(str, words[i:i + 500])) for i in range(0, len(words), 500)]
-    reqs = dreq + sreq + hreq
+    # of_hweight_array on raw word arrays (any content, also in the bits beyond `size`: whole words are counted), array exactly as long as
+    # the words the function may read (ASan sees an over-read) or longer
+    areq = []
+    for _ in range(150 if c.tier == "quick" else 2000):
+        size = c.rng.choice([0, 1, 31, 32, 33, 63, 64, 65, 95, 96, 97, 128, c.rng.rng(0, 700)])
+        nw = (size + 31) // 32 + (c.rng.below(3) if c.rng.chance(1, 3) else 0)
+        ws = [c.rng.choice([0, 0xFFFFFFFF, 1 << c.rng.below(32), c.rng.below(2 ** 32)]) for _ in range(nw)]
+        areq.append("A %d %s" % (size, " ".join(map(str, ws))))
+    reqs = dreq + sreq + hreq + areq
     ans, crashes = vlib.run_driver(exe, reqs, prefix="R")
     for kx, se in crashes[:6]:
         c.violation("dense/solver operation crashed: %s" % ans[kx][:200], "dense-crash", {"request": reqs[kx][:2000], "stderr": se})
@@ -240,12 +254,28 @@ def run(c):
                 c.violation("popcount helpers on %#x: (hweight32, hweight32_table, hweight32_naive, hweight8_table, popcount_3) = %s, expected %s" % (w, v, want),
                             "popcount", {"stream": "pop", "word": w, "got": v, "expected": want})
                 break
-    c.cov["evaluations"] = sum(len(r.split()) - 3 for r in dreq) + len(sreq) + len(words)
+    try:
+        rc, mout, _ = vlib.sh([vlib.ocaml_model()], input="\n".join("U" + r[1:] for r in areq) + "\n", timeout=600)
+        aml = mout.splitlines()
+    except vlib.BuildError as e:
+        aml = None
+    for k, rq in enumerate(areq):
+        a = ans[len(dreq) + len(sreq) + len(hreq) + k]
+        if a.startswith(("CRASH", "SKIPPED")):
+            continue
+        f = rq.split(); size = int(f[1]); ws = [int(x) for x in f[2:]]
+        want = sum(popcount(w) for w in ws[:(size + 31) // 32])
+        c.dist("pop:array")
+        if a != "R %d" % want:
+            c.violation("of_hweight_array on %d bits of %s returned %s, the words hold %d ones" % (size, ws[:6], a, want), "popcount", {"stream": "pop", "request": rq[:600], "c_answer": a})
+        elif aml is not None and (k >= len(aml) or aml[k] != a):
+            c.proof_failed.append({"correspondence": "pop-array", "request": rq[:600], "c": a, "model": aml[k] if k < len(aml) else ""}); aml = None
+    c.cov["evaluations"] = sum(len(r.split()) - 3 for r in dreq) + len(sreq) + len(words) + len(areq)
     c.cov["distinct_nontrivial"] = len(set(reqs))
     c.cov["traces_validated_against_impl"] = len(dreq) + len(sreq)
     c.cov["rule"] = ("dense: op sequences on matrices with column counts around word boundaries (1, 2, 31, 32, 33, 63, 64, 65, random <= 100), every exported op, state (all words incl. padding) "
                      "compared after every op; solve: p x q systems (full rank, rank q-1 by construction, duplicated rows, triangular, p < q, zero right-hand sides -> NULL constant terms), "
-                     "symbol lengths 1..9 and 64; popcounts: boundary words, all single bits, all low masks, 3000 random words; distinct = distinct request lines")
+                     "symbol lengths 1..9 and 64; popcounts: boundary words, all single bits, all low masks, 3000 random words; of_hweight_array on raw arrays of 0..700 bits (exact-size and longer arrays, dirty bits beyond the size); distinct = distinct request lines")
     c.cov["samples"] = [dreq[0][:200], sreq[0][:200], hreq[0][:80]]
-    c.cov["partial"] = "of_hweight_array (the loop over words, 64-bit pairs first) and the UINT8-pointer cast of of_hweight32_table are hand-modelled; row/column weights of the dense model are defined over d_get, the C's use of the popcount helpers for them is covered by the correspondence"
+    c.cov["partial"] = "of_hweight_array (the loop over words, 64-bit pairs first: HweightArray.v, proved and compared on raw arrays) and the UINT8-pointer cast of of_hweight32_table are hand-modelled; row/column weights of the dense model are defined over d_get, the C's use of the popcount helpers for them is covered by the correspondence"
     c.trusted = vlib.BASE_TRUST + ["Dense.v / DenseSolve.v hand-written mirrors of the row-oriented build of of_matrix_dense.c and of of_ml_tool.c"]
